@@ -188,6 +188,11 @@ func (fb *fnBounds) linOf(v ssa.Value, at ssa.Instruction, d int) (lin, bool) {
 		}
 	case *ssa.UnOp:
 		if t.Op == token.MUL && isIntType(t.Type()) {
+			if fa, ok := t.X.(*ssa.FieldAddr); ok {
+				if src, ok := structCopySource(fa.X); ok {
+					return linVar(structFieldVar(src, fieldOf(fa).Field)), true
+				}
+			}
 			return linVar(fb.memVar(t.X, t)), true
 		}
 		if t.Op == token.SUB && isIntType(t.Type()) {
@@ -210,6 +215,56 @@ func (fb *fnBounds) linOf(v ssa.Value, at ssa.Instruction, d int) (lin, bool) {
 	}
 	return lin{}, false
 }
+
+// structCopySource: x is a local struct variable that holds a by-value copy of one struct value (a result of
+// a call, typically): it is assigned as a whole exactly once and none of its fields is ever written or has
+// its address taken otherwise. Returns the value it was filled from.
+func structCopySource(x ssa.Value) (ssa.Value, bool) {
+	al, ok := x.(*ssa.Alloc)
+	if !ok {
+		return nil, false
+	}
+	if n, _ := namedStruct(al.Type().Underlying().(*types.Pointer).Elem()); n == nil {
+		return nil, false
+	}
+	var src ssa.Value
+	for _, r := range *al.Referrers() {
+		switch r := r.(type) {
+		case *ssa.Store:
+			if r.Addr != ssa.Value(al) || src != nil {
+				return nil, false
+			}
+			src = r.Val
+		case *ssa.FieldAddr:
+			for _, rr := range *r.Referrers() {
+				switch u := rr.(type) {
+				case *ssa.UnOp:
+					if u.Op != token.MUL {
+						return nil, false
+					}
+				case *ssa.DebugRef:
+				default:
+					return nil, false
+				}
+			}
+		case *ssa.UnOp:
+			if r.Op != token.MUL {
+				return nil, false
+			}
+		case *ssa.DebugRef:
+		default:
+			return nil, false
+		}
+	}
+	switch src.(type) {
+	case *ssa.Extract, *ssa.Call, *ssa.Parameter:
+		return src, true
+	}
+	return nil, false
+}
+
+// structFieldVar names integer field f of a struct value.
+func structFieldVar(v ssa.Value, f string) string { return "sf:" + ssaName(v) + "." + f }
 
 // lenOf: linear form of len(v) for a string/slice/array-pointer value.
 func (fb *fnBounds) lenOf(v ssa.Value, at ssa.Instruction, d int) lin {
@@ -293,6 +348,10 @@ func (fb *fnBounds) kills(in ssa.Instruction, cls string) bool {
 		case *ssa.IndexAddr:
 			return cls == "elem:"+a.Type().Underlying().(*types.Pointer).Elem().String()
 		default:
+			// a struct stored as a whole rewrites every field of it
+			if n, _ := namedStruct(t.Val.Type()); n != nil && strings.HasPrefix(cls, "fld:"+n.String()+".") {
+				return true
+			}
 			if cls == "cell:"+ssaName(t.Addr) {
 				return true
 			}
@@ -843,20 +902,30 @@ func (fb *fnBounds) condConstraints(c ssa.Value, pol bool, at ssa.Instruction, d
 						results[ex.Index] = ex
 					}
 				}
+				resVar := func(k int, f string) (lin, bool) {
+					rv := results[k]
+					if rv == nil {
+						return lin{}, false
+					}
+					if f == "" {
+						return linVar(ssaName(rv)), true
+					}
+					return linVar(structFieldVar(rv, f)), true
+				}
 				for _, fc := range fb.bp.foundContracts(callee) {
-					rv := results[fc.K]
-					if rv == nil || fc.P >= len(call.Call.Args) {
+					rv, ok := resVar(fc.K, fc.KF)
+					if !ok || fc.P >= len(call.Call.Args) {
 						continue
 					}
 					why := fmt.Sprintf("%s said true: %s", callee.Name(), fc.desc)
 					switch fc.Kind {
 					case 0:
-						cs = append(cs, geq(linVar(ssaName(rv)), linConst(0), why))
+						cs = append(cs, geq(rv, linConst(0), why))
 					case 1:
-						cs = append(cs, gt(fb.lenOf(call.Call.Args[fc.P], at, 0), linVar(ssaName(rv)), why))
+						cs = append(cs, gt(fb.lenOf(call.Call.Args[fc.P], at, 0), rv, why))
 					case 2:
-						rj := results[fc.J]
-						if rj == nil {
+						rj, ok := resVar(fc.J, fc.JF)
+						if !ok {
 							continue
 						}
 						arg := call.Call.Args[fc.P]
@@ -865,8 +934,8 @@ func (fb *fnBounds) condConstraints(c ssa.Value, pol bool, at ssa.Instruction, d
 							continue
 						}
 						cls := "elem:" + sl.Elem().String()
-						name := fmt.Sprintf("len:elem(%s[%s]@%s)", fb.vid(arg, at), linVar(ssaName(rj)).String(), fb.versionAt(cls, at))
-						cs = append(cs, gt(linVar(name), linVar(ssaName(rv)), why))
+						name := fmt.Sprintf("len:elem(%s[%s]@%s)", fb.vid(arg, at), rj.String(), fb.versionAt(cls, at))
+						cs = append(cs, gt(linVar(name), rv, why))
 					}
 				}
 				if len(cs) > 0 {
